@@ -19,7 +19,7 @@ DECIDING = ["membership_checks", "host_bit_checks"]
 def cases(ctx):
     rng = ctx.rng
     hb = None if ctx.quick else None
-    for cfg in ipgen.configs(rng, ctx.per_shard(ctx.pick(900, 12000)), quick=ctx.quick):
+    for cfg in ipgen.configs(rng, ctx.per_shard(ctx.pick(900, 24000)), quick=ctx.quick):
         yield {"kind": "cfg", "cfg": cfg, "n": (ctx.pick(300, 2000) if cfg["fam"] == 4 else ctx.pick(60, 300)),
                "aseed": rng.getrandbits(32)}
     from ..oracles import ipref
@@ -33,7 +33,7 @@ def cases(ctx):
         cfg["pp"] = rng.choice([None, None, ["10.0.0.0/8", "100.64.0.0/10"]])
         yield {"kind": "cfg", "cfg": cfg, "n": ctx.pick(9000, 40000), "aseed": rng.getrandbits(32), "long": True}
     # many salts against the same prefix list: an unpinned last bit is a 1/2 event per salt
-    for i in range(ctx.per_shard(ctx.pick(1500, 40000))):
+    for i in range(ctx.per_shard(ctx.pick(1500, 80000))):
         pp = rng.choice([None, ["10.0.0.0/8"], ["1.2.3.4/31"], ["12.0.0.0/6", "200.100.0.0/17"], [ipgen.rand_net4(rng)]])
         cfg = {"fam": 4, "salt": "s%d" % rng.getrandbits(40), "B": rng.choice([None, 0, 8, 8, 24]), "pp": pp,
                "pa": rng.choice([None, None, [ipgen.rand_net4(rng, rng.choice([8, 20, 31, 32]))]]), "salter": "default"}
